@@ -466,4 +466,28 @@ example :
     (runHandleCommandAll (parseBody Gen.VxfwBodies.handleCommand) genCallees (e0 C15.chainOracle) 3 (St.init 0) (.focus 1)).map
       (fun s => (s.focused, s.redraw, s.calls, s.stuck)) = some (2, true, 4, false) := by decide +kernel
 
+/-! ## The order of the hover notifications of one `update`, explicitly -/
+
+/-- **The hit-list diff, explicitly** (handlers that answer nil, so that nothing but the notifications is in the trace): the
+    executed body of `mouseHandler.update` appends to the trace FIRST one `MouseLeave` call for every hit result of the OLD list
+    that is not (as a struct) in the new one, in the old order, THEN one `MouseEnter` call for every hit result of the NEW list
+    (`hitsAt` of the surface at the pointer) that is not in the old one, in the new order — nothing else —, returns nil and
+    stores the new list.  (For arbitrary answers the same two loops run with each answer's command handled in between:
+    `mouse_update_body_eq_model`.) -/
+theorem mouse_update_body_explicit (o : Oracle) (hq : ∀ w ev ph k, o.h w ev ph k = .nil) (fuel : Nat) (s : St) (t : STree)
+    (c r : Int) (hm : s.mouse = some (c, r)) :
+    ∃ s', runMouseUpdate (parseBody Gen.VxfwBodies.mouseUpdate) (e0 o) (fuel + 1) s t = some (s', false) ∧
+      s'.trace = s.trace ++
+        (s.lastHits.filter (fun h => !(hitsAt t c r).contains h)).map (fun h => Entry.call h.w .mouseLeave .target) ++
+        ((hitsAt t c r).filter (fun h => !s.lastHits.contains h)).map (fun h => Entry.call h.w .mouseEnter .target) ∧
+      s'.lastHits = hitsAt t c r := by
+  refine ⟨mouseUpdate o (fuel + 1) s t, ?_, ?_, ?_⟩
+  · rw [mouse_update_body_eq_model, Lemmas.Vxfw.eMouseUpdate_noerr]
+  · simp only [mouseUpdate, hm]
+    obtain ⟨h1, h1'⟩ := Lemmas.VxfwBodyRun.foldl_notify_quiet o hq fuel .mouseLeave (fun h => (hitsAt t c r).contains h) s.lastHits s
+    obtain ⟨h2, _⟩ := Lemmas.VxfwBodyRun.foldl_notify_quiet o hq fuel .mouseEnter (fun h => s.lastHits.contains h) (hitsAt t c r)
+      (s.lastHits.foldl (fun s h1 => if (hitsAt t c r).contains h1 then s else notify o (fuel + 1) s h1.w .mouseLeave) s)
+    rw [h2, h1]
+  · simp [mouseUpdate, hm]
+
 end VaxisModel.Props.C15Body
